@@ -163,6 +163,9 @@ class ConcurrentExecutor(ABC, Generic[CallableType, ResultType]):
         # Event-driven state tracking for when the executor is done
         self._completion_event = threading.Event()
         self._suspend_exception: SuspendExecution | None = None
+        # BaseException (e.g. BackgroundThreadError after a checkpoint failure) that surfaced in a
+        # branch or in the timer thread and must be re-raised by the thread waiting in execute()
+        self._fatal_exception: BaseException | None = None
 
         # ExecutionCounters will keep track of completion criteria and on-going counters
         min_successful = self.completion_config.min_successful or len(self.executables)
@@ -203,10 +206,17 @@ class ConcurrentExecutor(ABC, Generic[CallableType, ResultType]):
         ]
         self._completion_event.clear()
         self._suspend_exception = None
+        self._fatal_exception = None
 
         def resubmitter(executable_with_state: ExecutableWithState) -> None:
             """Resubmit a timed suspended task."""
-            execution_state.create_checkpoint()
+            try:
+                execution_state.create_checkpoint()
+            except BaseException as e:  # noqa: BLE001
+                # checkpointing failed: nobody else would wake the waiting thread
+                self._fatal_exception = e
+                self._completion_event.set()
+                return
             submit_task(executable_with_state)
 
         thread_executor = ThreadPoolExecutor(max_workers=max_workers)
@@ -235,6 +245,9 @@ class ConcurrentExecutor(ABC, Generic[CallableType, ResultType]):
 
                 # Wait for completion
                 self._completion_event.wait()
+
+                if self._fatal_exception is not None:
+                    raise self._fatal_exception
 
                 # Cancel futures that haven't started yet
                 for future in futures:
@@ -325,6 +338,13 @@ class ConcurrentExecutor(ABC, Generic[CallableType, ResultType]):
         except Exception as e:  # noqa: BLE001
             exe_state.fail(e)
             self.counters.fail_task()
+        except BaseException as e:  # noqa: BLE001
+            # Not a branch failure (BackgroundThreadError after a checkpoint failure, SystemExit, ...):
+            # it must not be swallowed by the future's callback machinery, which would leave the
+            # thread in execute() waiting forever. Hand it over and wake that thread.
+            self._fatal_exception = e
+            self._completion_event.set()
+            return
 
         # Check if execution should complete or suspend
         if self.counters.should_complete():
